@@ -50,7 +50,9 @@ def worker(outfile, fuzz_args):
         patches = []
         for _ in range(fdp.ConsumeIntInRange(1, 4)):
             k = fdp.ConsumeIntInRange(0, 5)
-            if k <= 3:
+            if k <= 1:
+                patches.append(('kfield', fdp.ConsumeIntInRange(0, 9999), fdp.ConsumeIntInRange(0, 99999), repl[fdp.ConsumeIntInRange(0, len(repl) - 1)], fdp.ConsumeIntInRange(0, 0xffffffff)))
+            elif k <= 3:
                 patches.append(('field', fdp.ConsumeIntInRange(0, 99999), repl[fdp.ConsumeIntInRange(0, len(repl) - 1)], fdp.ConsumeIntInRange(0, 0xffffffff)))
             elif k == 4:
                 patches.append(('trunc', fdp.ConsumeIntInRange(0, 99999), ['sector', 'interior', 'inside-metadata'][fdp.ConsumeIntInRange(0, 2)]))
@@ -105,7 +107,7 @@ def campaign(col, seed, nproc=15, runs=200000, max_total_time=600):
             # half of the processes start from small structured seeds, the others from an empty corpus
             for k in range(8):
                 with open(os.path.join(corpus, 'seed%d' % k), 'wb') as f:
-                    f.write(bytes([(i * 8 + k) % 48, 1 + k % 3, 2, k, 0, 0, 0, 5, 0, 0, 0, 0]))
+                    f.write(bytes([(i * 8 + k) % 56, 1 + k % 3, 2, k, 0, 0, 0, 5, 0, 0, 0, 0]))
         out = os.path.join(scratch, 'findings-%d.jsonl' % i)
         for pth in (out, out + '.stats'):
             if os.path.exists(pth):
